@@ -3,8 +3,9 @@ CONSTANTS
   ScrubTxLen = TRUE
   ResetRawSA = TRUE
   ResetSlot = TRUE
+  ClearHdr = TRUE
   SilentRK <- TSilent
 SPECIFICATION TraceSpec
-INVARIANTS ReplyOptIsOwn ReplyIsOwn SilentStaysSilent AtMostOneSend OwnershipWalk LeaseBound AllHome
+INVARIANTS ReplyOptIsOwn ReplyIsOwn SilentStaysSilent AtMostOneSend ReplyHeaderIsOwn OwnershipWalk LeaseBound AllHome
 POSTCONDITION TraceAccepted
 CHECK_DEADLOCK FALSE
